@@ -186,6 +186,14 @@ func runInBubble(sc *Scenario, res *ImplRun) {
 		namer: NewPubNamer(), env: &canonEnv{sidMap: map[string]string{}, authIDs: map[string]bool{}}}
 	cfg := &router.Config{}
 	for i := range sc.Realms {
+		if sc.Template && i >= 1 {
+			if i == 1 {
+				tpl := run.realmConfig(1)
+				tpl.URI = ""
+				cfg.RealmTemplate = tpl
+			}
+			continue
+		}
 		cfg.RealmConfigs = append(cfg.RealmConfigs, run.realmConfig(i))
 	}
 	rt, err := router.NewRouter(cfg, log.New(io.Discard, "", 0))
